@@ -1,6 +1,7 @@
 package rig
 
 import (
+	"bytes"
 	"crypto/sha256"
 	"encoding/hex"
 	"fmt"
@@ -53,7 +54,8 @@ func DumpAt(store db.DB, root []byte) (*Dump, error) {
 			return nil, fmt.Errorf("account trie get: %v", err)
 		}
 		raw := store.Get(vh)
-		if len(raw) == 0 {
+		if len(raw) == 0 && !bytes.Equal(vh, sha()) {
+			// (the all-zero account state encodes to zero bytes, stored under the hash of the empty string)
 			return nil, fmt.Errorf("account %x: state value %x missing in store", k, vh)
 		}
 		st := &types.State{}
